@@ -40,6 +40,15 @@ func BuildLabelProgram(ops []LOp) (out []bpf.Instruction, err error, panicked an
 
 // BuildLabelProgramAgain also returns a function that calls Assemble on the very same Program once more.
 func BuildLabelProgramAgain(ops []LOp) (out []bpf.Instruction, err error, panicked any, again func() ([]bpf.Instruction, error, any)) {
+	out, err, panicked, again, _ = BuildLabelProgramEarly(ops, -1)
+	return
+}
+
+// BuildLabelProgramEarly calls Assemble once already when only the first `early` ops have been added (early < 0: never).
+// Labels placed later are still missing then, so that call normally fails; the caller goes on building and assembles the
+// complete program. earlyErr is what the early call returned ("" for nil, "-" if it was not made).
+func BuildLabelProgramEarly(ops []LOp, early int) (out []bpf.Instruction, err error, panicked any, again func() ([]bpf.Instruction, error, any), earlyErr string) {
+	earlyErr = "-"
 	defer func() {
 		if e := recover(); e != nil {
 			panicked = e
@@ -61,6 +70,20 @@ func BuildLabelProgramAgain(ops []LOp) (out []bpf.Instruction, err error, panick
 		}
 	}
 	for i, o := range ops {
+		if i == early {
+			func() {
+				defer func() {
+					if r := recover(); r != nil {
+						earlyErr = fmt.Sprint("panic: ", r)
+					}
+				}()
+				if _, e := p.Assemble(); e != nil {
+					earlyErr = e.Error()
+				} else {
+					earlyErr = ""
+				}
+			}()
+		}
 		if l, ok := lab[i]; ok {
 			p.SetLabel(l)
 		}
